@@ -87,7 +87,7 @@ CHECKS["C04"] = {
                        "cstruct.py:cstruct._make_array", "cstruct.py:cstruct._make_pointer",
                        "expression.py:Expression.evaluate"],
     "required_cells": ["align:True", "align:False", "alignclass:1", "alignclass:2", "alignclass:4", "alignclass:8",
-                       "alignclass:16", "mixed-modes:aligned-offset", "mixed-modes:unaligned-offset", "empty-structures"],
+                       "alignclass:16", "mixed-modes:aligned-offset", "mixed-modes:unaligned-offset", "empty-structures", "explicit-forward-offsets"],
     "assumptions": ASSUME_COMMON,
 }
 
@@ -129,7 +129,7 @@ CHECKS["C07"] = {
                        "types/enum.py:EnumMetaType._read_0", "types/structure.py:StructureMetaType._read_0",
                        "cstruct.py:cstruct._make_array", "<compiled>"],
     "required_cells": ['packedxexprenum:interpreted', 'widexexprenum:interpreted', 'floatxexprenum:interpreted', 'charxexprenum:interpreted', 'wcharxexprenum:interpreted', 'enumxexprenum:interpreted', 'flagxexprenum:interpreted', 'lebxexprenum:interpreted', 'structxexprenum:interpreted', 'intstructxexprenum:interpreted', 'dynstructxexprenum:interpreted', 'arrayxexprenum:interpreted', 'chararrayxexprenum:interpreted', 'ptrxexprenum:interpreted', 'packedxfixed0:interpreted', 'packedxfixed1:interpreted', 'packedxfixedk:interpreted', 'packedxexpr:interpreted', 'packedxexprneg:interpreted', 'packedxexprconst:interpreted', 'packedxexprsizeof:interpreted', 'packedxnull:interpreted', 'packedxeof:interpreted', 'widexfixed0:interpreted', 'widexfixed1:interpreted', 'widexfixedk:interpreted', 'widexexpr:interpreted', 'widexexprneg:interpreted', 'widexexprconst:interpreted', 'widexexprsizeof:interpreted', 'widexnull:interpreted', 'widexeof:interpreted', 'floatxfixed0:interpreted', 'floatxfixed1:interpreted', 'floatxfixedk:interpreted', 'floatxexpr:interpreted', 'floatxexprneg:interpreted', 'floatxexprconst:interpreted', 'floatxexprsizeof:interpreted', 'floatxeof:interpreted', 'charxfixed0:interpreted', 'charxfixed1:interpreted', 'charxfixedk:interpreted', 'charxexpr:interpreted', 'charxexprneg:interpreted', 'charxexprconst:interpreted', 'charxexprsizeof:interpreted', 'charxnull:interpreted', 'charxeof:interpreted', 'wcharxfixed0:interpreted', 'wcharxfixed1:interpreted', 'wcharxfixedk:interpreted', 'wcharxexpr:interpreted', 'wcharxexprneg:interpreted', 'wcharxexprconst:interpreted', 'wcharxexprsizeof:interpreted', 'wcharxnull:interpreted', 'wcharxeof:interpreted', 'enumxfixed0:interpreted', 'enumxfixed1:interpreted', 'enumxfixedk:interpreted', 'enumxexpr:interpreted', 'enumxexprneg:interpreted', 'enumxexprconst:interpreted', 'enumxexprsizeof:interpreted', 'enumxnull:interpreted', 'enumxeof:interpreted', 'flagxfixed0:interpreted', 'flagxfixed1:interpreted', 'flagxfixedk:interpreted', 'flagxexpr:interpreted', 'flagxexprneg:interpreted', 'flagxexprconst:interpreted', 'flagxexprsizeof:interpreted', 'flagxnull:interpreted', 'flagxeof:interpreted', 'lebxfixed0:interpreted', 'lebxfixed1:interpreted', 'lebxfixedk:interpreted', 'lebxexpr:interpreted', 'lebxexprneg:interpreted', 'lebxexprconst:interpreted', 'lebxexprsizeof:interpreted', 'lebxnull:interpreted', 'lebxeof:interpreted', 'structxfixed0:interpreted', 'structxfixed1:interpreted', 'structxfixedk:interpreted', 'structxexpr:interpreted', 'structxexprneg:interpreted', 'structxexprconst:interpreted', 'structxexprsizeof:interpreted', 'structxeof:interpreted', 'intstructxfixed0:interpreted', 'intstructxfixed1:interpreted', 'intstructxfixedk:interpreted', 'intstructxexpr:interpreted', 'intstructxexprneg:interpreted', 'intstructxexprconst:interpreted', 'intstructxexprsizeof:interpreted', 'intstructxnull:interpreted', 'intstructxeof:interpreted', 'dynstructxfixed0:interpreted', 'dynstructxfixed1:interpreted', 'dynstructxfixedk:interpreted', 'dynstructxexpr:interpreted', 'dynstructxexprneg:interpreted', 'dynstructxexprconst:interpreted', 'dynstructxexprsizeof:interpreted', 'dynstructxeof:interpreted', 'arrayxfixed0:interpreted', 'arrayxfixed1:interpreted', 'arrayxfixedk:interpreted', 'arrayxexpr:interpreted', 'arrayxexprneg:interpreted', 'arrayxexprconst:interpreted', 'arrayxexprsizeof:interpreted', 'arrayxeof:interpreted', 'chararrayxfixed0:interpreted', 'chararrayxfixed1:interpreted', 'chararrayxfixedk:interpreted', 'chararrayxexpr:interpreted', 'chararrayxexprneg:interpreted', 'chararrayxexprconst:interpreted', 'chararrayxexprsizeof:interpreted', 'chararrayxeof:interpreted', 'ptrxfixed0:interpreted', 'ptrxfixed1:interpreted', 'ptrxfixedk:interpreted', 'ptrxexpr:interpreted', 'ptrxexprneg:interpreted', 'ptrxexprconst:interpreted', 'ptrxexprsizeof:interpreted', 'ptrxeof:interpreted', 'exprarrayxfixed0:interpreted', 'exprarrayxfixed1:interpreted', 'exprarrayxfixedk:interpreted', 'exprarrayxexpr:interpreted', 'exprarrayxexprneg:interpreted', 'exprarrayxexprconst:interpreted', 'exprarrayxexprsizeof:interpreted', 'exprarrayxexprenum:interpreted', 'exprarrayxeof:interpreted'] + ["direct-use", "shadowing", "folded-length-source", "long:charxnull", "long:wcharxnull",
-                                                             "long:packedxexpr", "long:lebxnull"],
+                                                             "long:packedxexpr", "long:lebxnull", "array-count-is-an-enum-member"],
     "assumptions": ASSUME_COMMON,
 }
 
@@ -149,7 +149,7 @@ CHECKS["C08"] = {
                        "types/structure.py:UnionMetaType._read", "<compiled>"],
     "required_cells": ["align:True", "align:False", "compiled:True", "compiled:False", "dynamic-union", "feat:union",
                        "feat:bits", "direct-types",
-                       "eof-elements:struct", "eof-elements:int24", "eof-elements:uleb128"],
+                       "eof-elements:struct", "eof-elements:int24", "eof-elements:uleb128", "single-char-member-at-offset"],
     "assumptions": ASSUME_COMMON + ["faults are injected at read() calls of file-like streams; bytes inputs are "
                                     "covered through the cut points"],
 }
@@ -274,7 +274,7 @@ CHECKS["C19"] = {
                        "utils.py:pack", "utils.py:unpack", "utils.py:swap", "utils.py:p8", "utils.py:u64",
                        "utils.py:swap16", "utils.py:swap32", "utils.py:swap64"],
     "required_cells": ["len%16=0", "len%16=1", "len%16=15", "palette:zeros", "palette:long", "palette:short",
-                       "palette:lineends", "dumpstruct:bits", "dumpstruct:plain", "pack:network", "pack:!", "pack:<", "pack:odd-width", "dumpstruct:forms"],
+                       "palette:lineends", "dumpstruct:bits", "dumpstruct:plain", "pack:network", "pack:!", "pack:<", "pack:odd-width", "dumpstruct:forms", "dumpstruct:after-assignment"],
     "assumptions": ASSUME_COMMON,
 }
 
@@ -417,7 +417,7 @@ CHECKS["C14"] = {
     "required_cells": ["op:default", "op:keyword", "op:mutate", "op:parse", "op:failparse", "op:endian", "op:load",
                        "op:add_type", "two-cstructs-same-names", "load-histories", "load-histories:align",
                        "load-histories:compiled",
-                       "deepcopy:union", "deepcopy:plain", "custom-type-on-several-cstructs", "failed-load-then-corrected-load"],
+                       "deepcopy:union", "deepcopy:plain", "custom-type-on-several-cstructs", "failed-load-then-corrected-load", "same-text-other-constants"],
     "assumptions": ASSUME_COMMON,
 }
 
